@@ -311,10 +311,11 @@ def generic_strategy():
         elif kind == 'formula':
             case['text'] = draw(formula)
         elif kind == 'glycan':
-            # written so that the reading is unambiguous: every name followed by an explicit count
+            # written so that the reading is unambiguous: every name followed by an explicit count; a name may occur twice
+            # ('Hex2HexNAc1Hex3' spells five hexoses)
             items = draw(st.lists(st.tuples(st.sampled_from(['Hex', 'HexNAc', 'Fuc', 'NeuAc', 'Neu5Gc', 'dHex', 'Pent', 'HexA', 'Sulf',
                                                              'Phospho', 'Kdn', 'Me', 'Ac', 'Neu', 'HexN', 'HexS']),
-                                            st.integers(1, 9)), min_size=1, max_size=4, unique_by=lambda t: t[0]))
+                                            st.integers(1, 9)), min_size=1, max_size=4))
             case['glycan'] = [list(x) for x in items]
             case['text'] = draw(st.sampled_from(['Glycan', 'glycan', 'GLYCAN'])) + ':' + ''.join(f'{a}{b}' for a, b in items)
         else:
